@@ -37,7 +37,7 @@ case $cmd in
      wt=/tmp/mw/det_${id}_$prop; rm -rf $wt; git -C /repo worktree prune
      git -C /repo worktree add --detach $wt HEAD >/dev/null 2>&1 || { echo "worktree failed"; exit 2; }
      git -C $wt apply $S/patch.diff || { echo "PATCH-DOES-NOT-APPLY"; git -C /repo worktree remove --force $wt; exit 3; }
-     (cd /verif && VERIF_REPO=$wt ./check $prop --tier $tier > $S/detect_${prop}_$tier.log 2>&1); rc=$?
+     (cd /verif && VERIF_EVIDENCE_DIR=/verif/.work/evidence-$id VERIF_REPO=$wt ./check $prop --tier $tier > $S/detect_${prop}_$tier.log 2>&1); rc=$?
      git -C /repo worktree remove --force $wt
    fi
    echo "check $prop ($tier) rc=$rc; violations: $(grep -c '^VIOLATION' $S/detect_${prop}_$tier.log)"
